@@ -15,6 +15,23 @@ thread_local! {
     /// One-shot allocation failure: the next allocation of exactly this (size, alignment) on this
     /// thread returns null.
     static FAIL_NEXT: Cell<Option<(usize, usize)>> = const { Cell::new(None) };
+    /// While set, every heap `dealloc` on this thread is recorded (address, size) in FREES.
+    static LOG_ON: Cell<bool> = const { Cell::new(false) };
+    static FREES: Cell<([(usize, usize); 64], usize)> = const { Cell::new(([(0, 0); 64], 0)) };
+}
+
+/// Starts recording the heap ranges freed on this thread (at most 64; more sets the overflow flag
+/// returned by `take_frees`).
+pub fn log_frees() {
+    FREES.with(|f| f.set(([(0, 0); 64], 0)));
+    LOG_ON.with(|l| l.set(true));
+}
+
+/// Stops recording and returns the freed ranges and whether the log overflowed.
+pub fn take_frees() -> (Vec<(usize, usize)>, bool) {
+    LOG_ON.with(|l| l.set(false));
+    let (a, n) = FREES.with(|f| f.get());
+    (a[..n.min(64)].to_vec(), n > 64)
 }
 
 /// Makes the next heap allocation of exactly `size` bytes with alignment `align` on this thread
@@ -61,6 +78,15 @@ unsafe impl GlobalAlloc for WatchAlloc {
         unsafe { System.realloc(ptr, layout, new_size) }
     }
     unsafe fn dealloc(&self, ptr: *mut u8, layout: Layout) {
+        if LOG_ON.try_with(|l| l.get()).unwrap_or(false) {
+            let _ = FREES.try_with(|f| {
+                let (mut a, n) = f.get();
+                if n < 64 {
+                    a[n] = (ptr as usize, layout.size());
+                }
+                f.set((a, n + 1));
+            });
+        }
         let armed = ARMED.try_with(|a| a.get()).unwrap_or(false);
         if armed {
             on_dealloc(ptr as usize, layout.size());
